@@ -30,6 +30,9 @@ const PageSize = 4096
 // ErrNoSpace is returned by writes that reach beyond the end of a non-growing device.
 var ErrNoSpace = errors.New("simdisk: write beyond end of device")
 
+// ErrReadBudget is the panic value raised by ReadAt when ReadBudget is exceeded.
+var ErrReadBudget = errors.New("simdisk: device read budget exceeded")
+
 type page struct {
 	data  [PageSize]byte
 	epoch *int // owner token; a page may be written in place only by the disk holding the same token
@@ -130,6 +133,10 @@ type Disk struct {
 	MaxReadAllowed int64 // if >0, a read request larger than this is flagged
 	OversizeRead   int64 // largest flagged request
 	OversizeLocus  string
+
+	// ReadBudget, if >0, makes ReadAt panic with ErrReadBudget once more than that many reads were
+	// issued since St was reset: the way out of an endless loop that keeps reading the device.
+	ReadBudget int64
 
 	// truncated view: reads at or beyond this offset hit EOF (0 = off)
 	TruncAt int64
@@ -281,6 +288,9 @@ func (d *Disk) ReadAt(p []byte, off int64) (int, error) {
 	}
 	if d.Yield != nil {
 		d.Yield("readat.pre")
+	}
+	if d.ReadBudget > 0 && d.St.Reads >= d.ReadBudget {
+		panic(ErrReadBudget)
 	}
 	if !d.NoStats {
 		d.St.Reads++
@@ -737,5 +747,25 @@ func (d *Disk) HashRangeCanonical(off, n int64) [32]byte {
 	}
 	var out [32]byte
 	copy(out[:], h.Sum(nil))
+	return out
+}
+
+// NonZeroExtents returns the merged extents of pages holding at least one non-zero byte.
+func (d *Disk) NonZeroExtents() [][2]int64 {
+	var idx []int64
+	for k, pg := range d.pages {
+		if !isZero(pg.data[:]) {
+			idx = append(idx, k)
+		}
+	}
+	sort.Slice(idx, func(i, j int) bool { return idx[i] < idx[j] })
+	var out [][2]int64
+	for _, k := range idx {
+		if n := len(out); n > 0 && out[n-1][0]+out[n-1][1] == k*PageSize {
+			out[n-1][1] += PageSize
+			continue
+		}
+		out = append(out, [2]int64{k * PageSize, PageSize})
+	}
 	return out
 }
